@@ -1398,9 +1398,14 @@ done:
 
 static void ares_detach_query(ares_query_t *query)
 {
-  /* Remove the query from all the lists in which it is linked */
+  /* Remove the query from all the lists in which it is linked.  May be called
+   * more than once for the same query, so only drop the qid mapping if it is
+   * still ours (the id may have been handed to a newer query meanwhile). */
   ares_query_remove_from_conn(query);
-  ares_htable_szvp_remove(query->channel->queries_by_qid, query->qid);
+  if (ares_htable_szvp_get_direct(query->channel->queries_by_qid,
+                                  query->qid) == query) {
+    ares_htable_szvp_remove(query->channel->queries_by_qid, query->qid);
+  }
   ares_llist_node_destroy(query->node_all_queries);
   query->node_all_queries = NULL;
 }
@@ -1416,6 +1421,12 @@ static void end_query(ares_channel_t *channel, ares_server_t *server,
   }
 
   ares_metrics_record(query, server, status, dnsrec);
+
+  /* Detach the query from the channel before invoking the callback: the
+   * callback may call ares_cancel() (or otherwise process the channel), which
+   * must not find and complete a second time a query whose completion callback
+   * is already running. */
+  ares_detach_query(query);
 
   /* Invoke the callback. */
   query->callback(query->arg, status, query->timeouts, dnsrec);
